@@ -16,6 +16,60 @@ def leaves_value(a):
     return False
 
 
+TOKTEXT = {"Q": '"', "PL": "%(", "PR": "%)", "L": "(", "R": ")", "X": "1"}
+
+
+def lexer_language(vd, drv, wd, tier):
+    """tla/Lexer.tla: the state machine of STRING / STRING_EMBEDDED accepts exactly the documented language of
+    string literals with embedded programs (TLC, all token sequences up to the bound); the sequences are replayed
+    on the real parser: verdict against the language, parse tree against the segmentation of the model."""
+    runs = [(6, ["Q", "PL", "PR", "L", "R", "X"]), (9, ["Q", "PL", "PR", "R"])]
+    if tier == "thorough":
+        runs = [(7, ["Q", "PL", "PR", "L", "R", "X"]), (10, ["Q", "PL", "PR", "R"]), (8, ["Q", "PL", "PR", "L", "R"])]
+    # non-vacuity: without the reset of in_string at "%(" the theorem fails
+    m = tlc.run_tlc("MCLexer", constants={"MaxLen": 9, "NoReset": True, "Tok": ["Q", "PL", "PR", "R"]}, workers=1, timeout=900, heap="8g")
+    if "Assumption" not in m.out and "assumption" not in m.out:
+        raise common.ToolError("Lexer.tla: the NoReset mutant is not caught\n" + m.out[-1500:])
+    vecs = []
+    for n, tok in runs:
+        out = os.path.join(wd, "lex-%d-%d.ndjson" % (n, len(tok)))
+        r = tlc.run_tlc("LexerGen", constants={"MaxLen": n, "NoReset": False, "Tok": tok, "OutFile": out, "Shard": 0, "NShards": 1},
+                        workers=1, timeout=1500, heap="12g")
+        if not r.ok or not os.path.exists(out):
+            if "ssumption" in r.out:
+                vd.observe("model:lexer: the mechanism does not accept exactly the language", {"output": r.out[-3000:]})
+                continue
+            raise common.ToolError("LexerGen failed\n" + r.out[-2000:])
+        vd.cov["states"] += int((__import__("re").search(r'"LEXGEN",\s*(\d+)', r.out) or [0, 0])[1])
+        vecs += [json.loads(l) for l in open(out) if l.strip()]
+    seen, cmds, meta = set(), [], []
+    for v in vecs:
+        txt = " ".join(TOKTEXT[t] for t in v["w"])
+        if txt in seen:
+            continue
+        seen.add(txt)
+        cmds.append("\t".join(["run", str(len(cmds)), "tree,noexec,t=20", zw.hexq(txt)])); meta.append((txt, v))
+    res = zw.run_driver(drv, cmds, wd, tag="lexer")
+    byid = {r.get("id"): r for r in res}
+    for i, (txt, v) in enumerate(meta):
+        vd.cov["evaluations"] += 1
+        r = byid.get(str(i)) or {}
+        st = r.get("status")
+        if st not in ("parsed", "parse_error"):
+            vd.observe("lexer: `%s' neither compiled nor rejected" % txt, {"observed": r}); continue
+        if (st == "parsed") != v["ok"]:
+            vd.observe("lexer: `%s' is %s the language of string literals with embedded programs but is %s"
+                       % (txt, "in" if v["ok"] else "not in", "rejected" if v["ok"] else "accepted"), {"observed": r})
+            continue
+        if v["ok"]:
+            want = [engine.render_tree(v["tree"]), engine.render_tree(v["stree"])]
+            if r.get("tree", "").split("\n") == want:
+                vd.cov["traces_validated_against_impl"] += 1
+            else:
+                vd.drift.append("parse tree of `%s' differs from tla/LexerGen.tla: %s vs %s" % (txt, r.get("tree"), want))
+    return len(meta)
+
+
 def run(tier):
     vd = common.Verdict(PID, tier)
     wd = common.scratch(PID)
@@ -31,6 +85,7 @@ def run(tier):
                 raise common.ToolError("TLC Equiv failed\n" + r.out[-2000:])
         vd.cov["states"] += 1
         vd.cov["transitions"] += 1
+    nlex = lexer_language(vd, os.path.join(bdir, "bin", "zwdrv"), wd, tier)
     # 2. variants of TLC-enumerated programs on the implementation
     base = []
     for fam in ("altor", "subif", "fmt"):
@@ -121,8 +176,11 @@ def run(tier):
                      "non-trivial = variant of a program with >= 1 result; (3) tla/Tree.tla transcribes the grammar actions and "
                      "tree::simplify, tla/EngineOps.tla builds the op graph from the tree: Engine.tla is model-checked with and "
                      "without the simplification (same meaning, Simplify is a fixed point free of its patterns), and the real parse "
-                     "tree before and after simplify and the pull sequences of both compilations are compared with the model",
-                     extra={"base_programs": len(base), "variants": len(meta) - len(base)})
+                     "tree before and after simplify and the pull sequences of both compilations are compared with the model; (4) tla/Lexer.tla: "
+                     "the bracket-counting state machine of the lexer for %( ... %) accepts exactly the documented language (all token "
+                     "sequences over \" %( %) ( ) 1 up to length 6, over \" %( %) ) up to length 9), every sequence of the language and a "
+                     "sample of the others are parsed by the implementation: verdict and segmentation (parse tree) must agree",
+                     extra={"base_programs": len(base), "variants": len(meta) - len(base), "lexer_words": nlex})
 
 def replay(path):
     print(open(path).read())
